@@ -49,6 +49,7 @@ def build(run, prop=ID):
     sect(run, build_bitfields, run, prop, E, cd)
     sect(run, build_bv_lemma, run, prop)
     sect(run, build_envelope, run, prop, E, cd)
+    sect(run, build_envelope_unbounded, run, prop, E, cd)
     sect(run, build_sequence, run, prop, E, cd)
     note_engine(run, E)
     run.assume("callbacks get_pres/get_len/get_val are pure; check() overrides are outside the contract; decode-time get_len equals the encoded length "
@@ -476,7 +477,7 @@ def build_envelope(run, prop, E, cd):
                     ob("encoding_is_concatenation_length", z3.BoolVal(False))
         return obls
     par_cases(run, E, cases, one)
-    run.bounded_notes.append("Envelope composition law instantiated for 0..%d abstract members (any member lengths, any failing member); arbitrary member counts follow by the same loop body" % K)
+    run.bounded_notes.append("Envelope composition law additionally instantiated for 0..%d abstract members with concrete call logs (the unbounded law is build_envelope_unbounded)" % K)
     # nesting wrapper Envelope.F
     fF, tF = raw(cd.Envelope.F, "_from_bytes"), raw(cd.Envelope.F, "_to_bytes")
 
@@ -495,6 +496,160 @@ def build_envelope(run, prop, E, cd):
         log = p.ghost.get("log", [])
         ok = out[0] == "return" and out[1] == b"abc" and len(log) == 1 and log[0][1] == {"k": 1}
         run.add(Obligation(prop, qualname(tF), "nested_envelope_encodes_its_sub_dict", p.pc, z3.BoolVal(bool(ok)), kind="post", where=where(tF), tag={"what": "env.F"}))
+
+
+# ------------------------------------------------------------------ Envelope, any number of members (loop contract / comprehension contract)
+
+class MemberSeq:
+    """Envelope.STRUCT with a symbolic number of ABSTRACT member codecs: member i consumes / produces LEN(i) >= 0 octets, or fails
+    (DFAIL(i) on decoding, EFAIL(i) on encoding: uninterpreted predicates).  Every call is checked against the interface contract."""
+
+    def __init__(self, cd, n, data, n_data, vals):
+        self.cd, self.length, self.data, self.n_data, self.vals = cd, n, data, n_data, vals
+
+    def elem(self, E, i):
+        me = self
+
+        def from_b(E, vals, d):
+            ps = E.ghost["PS"]
+            off = z3.Select(ps, i)
+            k = z3.Int(E.fresh("k!rest"))
+            E.require("member_decodes_into_the_same_dict", z3.BoolVal(vals is me.vals), kind="post")
+            E.require("member_sees_exactly_the_rest", z3.And(Z(d.length) == z3.If(me.n_data - off < 0, 0, me.n_data - off),
+                                                            z3.Implies(z3.And(k >= 0, k < me.n_data - off), Z(d.get(k)) == Z(me.data.get(off + k)))), kind="post")
+            E.ghost["from_calls"] = E.ghost.get("from_calls", 0) + 1
+            if E.branch(DFAIL(i)):
+                E.raise_(ValueError, "member fails")
+            return SInt(LEN(i))
+
+        def to_b(E, vals):
+            E.require("member_encodes_from_the_same_dict", z3.BoolVal(vals is me.vals), kind="post")
+            E.ghost["to_calls"] = E.ghost.get("to_calls", 0) + 1
+            if E.branch(EFAIL(i)):
+                E.raise_(OverflowError, "member fails")
+            return models.fresh_seq(E, "enc", "bytes", LEN(i), 0, 255)
+        return SObj(self.cd.Field, {"from_bytes": eng(from_b), "to_bytes": eng(to_b), "name": "m"})
+
+
+LEN = z3.Function("member_len", I, I)
+DFAIL = z3.Function("member_decode_fails", I, z3.BoolSort())
+EFAIL = z3.Function("member_encode_fails", I, z3.BoolSort())
+
+
+class EncList:
+    """the list of member encodings produced by the comprehension (symbolic length): only b''.join() is applied to it"""
+
+    def __init__(self, n, pse):
+        self.n, self.pse = n, pse
+
+    def pyvc_join(self, E, sep):
+        if sep != b"":
+            raise Unsupported("join with a separator")
+        E.ghost["joined"] = E.ghost.get("joined", 0) + 1
+        arr = z3.Array(E.fresh("joined"), I, I)
+        return SSeq("bytes", z3.Select(self.pse, self.n), lambda k: z3.Select(arr, Z(k)))
+
+
+def build_envelope_unbounded(run, prop, E, cd):
+    fb, tb = raw(cd.Envelope, "_from_bytes"), raw(cd.Envelope, "_to_bytes")
+    n, nd = z3.Int("members"), z3.Int("data.len")
+    m = z3.Int("m")
+
+    def prefix_sums(ps, upto, fail):
+        return z3.And(z3.Select(ps, 0) == 0,
+                      z3.ForAll([m], z3.Implies(z3.And(m >= 0, m < upto), z3.And(z3.Select(ps, m + 1) == z3.Select(ps, m) + LEN(m), z3.Not(fail(m)), LEN(m) >= 0))))
+
+    # ---- decoding: the for loop
+    def havoc(E, fr, i):
+        fr.locals["offset"] = SInt(E.fresh_int("offset"))
+        fr.locals.pop("f", None)
+
+    def inv(E, fr, i):
+        return z3.And(Z(fr.locals["offset"]) == z3.Select(E.ghost["PS"], i), Z(fr.locals["offset"]) >= 0, prefix_sums(E.ghost["PS"], i, DFAIL))
+
+    def facts(E, fr, i):
+        return [LEN(i) >= 0]
+    for check_len in (True, False):
+        cs = "any number of members,check_len=%s" % check_len
+        E.loop_specs = {("codec.Envelope._from_bytes", 1): LoopSpec("members_loop", havoc, inv, facts=facts)}
+
+        def setup(E, check_len=check_len):
+            E.assume(z3.And(n >= 0, nd >= 0))
+            data = models.fresh_seq(E, "d", "bytes", nd, 0, 255)
+            vals = {}
+            checks = []
+            ps = z3.Array("PS", I, I)          # ghost: PS[i] = sum of the first i member lengths (its defining axioms are the invariant)
+            E.assume(z3.Select(ps, 0) == 0)
+            E.assume(z3.ForAll([m], z3.Implies(z3.And(m >= 0, m < n), z3.And(z3.Select(ps, m + 1) == z3.Select(ps, m) + LEN(m), LEN(m) >= 0))))
+            E.ghost.update({"PS": ps, "checks": checks})
+            env = SObj(cd.Envelope, {"STRUCT": MemberSeq(cd, n, data, nd, vals), "check_len": check_len, "c": {},
+                                     "check": eng(lambda E, v: checks.append(v))})
+            return {"env": env, "data": data, "vals": vals}
+        n_ret = 0
+        for p, ctx, out in run_paths(E, setup, lambda E, ctx: E.call(fb, [ctx["env"], ctx["vals"], ctx["data"]])):
+            tag = {"what": "env.from.unbounded", "check_len": check_len}
+            run.add(*path_obligations(run, prop, fb, p, cs, tag=tag))
+            if out[0] == "cut":
+                continue
+            ps = p.ghost["PS"]
+            total = z3.Select(ps, n)
+
+            def ob(clause, goal):
+                run.add(Obligation(prop, qualname(fb), clause, p.pc, goal, kind="post", case=cs, where=where(fb), tag=tag))
+            if out[0] == "raise":
+                ob("only_DecodeError", z3.BoolVal(issubclass(out[1].cls, cd.DecodeError)))
+                ob("check_hook_not_called_on_failure", z3.BoolVal(p.ghost.get("checks") == []))
+                if not p.ghost.get("from_calls"):
+                    # raised after the loop: the only reason is the tail check
+                    ob("DecodeError_after_the_members_only_for_tail_octets", z3.And(z3.BoolVal(check_len), nd != total))
+                continue
+            n_ret += 1
+            ob("returns_sum_of_member_lengths", Z(out[1]) == total)
+            ob("accepts_only_without_tail_when_checked", z3.Implies(z3.BoolVal(check_len), nd == total))
+            ob("check_hook_called_once_after_decoding", z3.BoolVal(len(p.ghost.get("checks", [])) == 1 and p.ghost["checks"][0] is ctx["vals"]))
+        if n_ret == 0:
+            run.add(Obligation(prop, qualname(fb), "exit_path_exists", [], z3.BoolVal(False), kind="cover", case=cs, where=where(fb)))
+    E.loop_specs = {}
+
+    # ---- encoding: the list comprehension
+    def all_ok(E, it):
+        E.assume(z3.ForAll([m], z3.Implies(z3.And(m >= 0, m < n), z3.Not(EFAIL(m)))))
+
+    def elem_post(E, i, v):
+        E.require("element_is_the_member_encoding", z3.BoolVal(isinstance(v, SSeq)) if not isinstance(v, SSeq) else Z(v.length) == LEN(i), kind="post")
+    E.loop_specs = {("codec.Envelope._to_bytes", "comp", 1): LoopSpec("members_comprehension", None, None, all_ok=all_ok, elem_post=elem_post,
+                                                                     result=lambda E, it: EncList(n, E.ghost["PS"]))}
+    cs = "any number of members"
+
+    def setup2(E):
+        E.assume(n >= 0)
+        vals = {}
+        checks = []
+        ps = z3.Array("PS", I, I)
+        E.assume(z3.Select(ps, 0) == 0)
+        E.assume(z3.ForAll([m], z3.Implies(z3.And(m >= 0, m < n), z3.And(z3.Select(ps, m + 1) == z3.Select(ps, m) + LEN(m), LEN(m) >= 0))))
+        E.ghost.update({"PS": ps, "checks": checks})
+        env = SObj(cd.Envelope, {"STRUCT": MemberSeq(cd, n, None, None, vals), "check_len": True, "c": {}, "check": eng(lambda E, v: checks.append(v))})
+        return {"env": env, "vals": vals}
+    n_ret = 0
+    for p, ctx, out in run_paths(E, setup2, lambda E, ctx: E.call(tb, [ctx["env"], ctx["vals"]])):
+        tag = {"what": "env.to.unbounded"}
+        run.add(*path_obligations(run, prop, tb, p, cs, tag=tag))
+        if out[0] == "cut":
+            continue
+
+        def ob(clause, goal):
+            run.add(Obligation(prop, qualname(tb), clause, p.pc, goal, kind="post", case=cs, where=where(tb), tag=tag))
+        ob("check_hook_called_once_before_encoding", z3.BoolVal(len(p.ghost.get("checks", [])) == 1 and p.ghost["checks"][0] is ctx["vals"]))
+        if out[0] == "raise":
+            ob("only_EncodeError_and_only_when_a_member_fails", z3.BoolVal(issubclass(out[1].cls, cd.EncodeError) and p.ghost.get("to_calls", 0) == 1))
+            continue
+        n_ret += 1
+        r = out[1]
+        ob("encoding_is_the_join_of_the_member_encodings", z3.And(z3.BoolVal(isinstance(r, SSeq) and p.ghost.get("joined") == 1), Z(r.length) == z3.Select(p.ghost["PS"], n)) if isinstance(r, SSeq) else z3.BoolVal(False))
+    if n_ret == 0:
+        run.add(Obligation(prop, qualname(tb), "exit_path_exists", [], z3.BoolVal(False), kind="cover", case=cs, where=where(tb)))
+    E.loop_specs = {}
 
 
 # ------------------------------------------------------------------ Sequence
@@ -621,7 +776,56 @@ def build_sequence(run, prop, E, cd):
             if ok and isinstance(out[1], SSeq):
                 goal = z3.And(goal, Z(out[1].length) == tot)
             run.add(Obligation(prop, qualname(tb), "concatenates_item_encodings_in_order", p.pc, goal, kind="post", case="items=%d" % cnt, where=where(tb), tag={"what": "seq.to"}, bounded=3))
-    run.bounded_notes.append("Sequence.to_bytes: item counts 0..3 (list comprehension); Sequence.from_bytes: any count (loop invariant)")
+    # to_bytes for ANY number of items: comprehension contract (element i is encoded by the item codec from the i-th value, in order)
+    cnt = z3.Int("items")
+    m = z3.Int("m")
+
+    class ValSeq:
+        def __init__(self, n):
+            self.length = n
+
+        def elem(self, E, i):
+            return {"item#": SInt(i)}
+
+    def all_ok(E, it):
+        pass
+
+    def elem_post(E, i, v):
+        E.require("element_is_the_item_encoding_of_the_ith_value", Z(v.length) == LEN(i) if isinstance(v, SSeq) else z3.BoolVal(False), kind="post")
+    E.loop_specs = {("codec.Sequence.to_bytes", "comp", 1): LoopSpec("items_comprehension", None, None, all_ok=all_ok, elem_post=elem_post,
+                                                                    result=lambda E, it: EncList(cnt, E.ghost["PS"]))}
+
+    def item_to(E, v):
+        idx = v.get("item#") if isinstance(v, dict) else None
+        E.require("item_codec_gets_the_sequence_values_themselves", z3.BoolVal(idx is not None), kind="post")
+        E.ghost["to_calls"] = E.ghost.get("to_calls", 0) + 1
+        return models.fresh_seq(E, "enc", "bytes", LEN(Z(idx)), 0, 255)
+
+    def setup3(E):
+        E.assume(cnt >= 0)
+        ps = z3.Array("PS", I, I)
+        E.assume(z3.Select(ps, 0) == 0)
+        E.assume(z3.ForAll([m], z3.Implies(z3.And(m >= 0, m < cnt), z3.And(z3.Select(ps, m + 1) == z3.Select(ps, m) + LEN(m), LEN(m) >= 0))))
+        E.ghost["PS"] = ps
+        item = SObj(cd.Envelope, {"_to_bytes": eng(item_to)})
+        return {"self": SObj(cd.Sequence, {"_item": item}), "vseq": ValSeq(cnt)}
+    n_ret = 0
+    for p, ctx, out in run_paths(E, setup3, lambda E, ctx: E.call(tb, [ctx["self"], ctx["vseq"]])):
+        tag = {"what": "seq.to.unbounded"}
+        run.add(*path_obligations(run, prop, tb, p, "any number of items", tag=tag))
+        if out[0] == "cut":
+            continue
+        if out[0] == "raise":
+            run.add(Obligation(prop, qualname(tb), "never_raises_when_items_encode", p.pc, z3.BoolVal(False), kind="noexc", note=exc_note(out[1]), case="any number of items", where=where(tb), tag=tag))
+            continue
+        n_ret += 1
+        r = out[1]
+        run.add(Obligation(prop, qualname(tb), "encoding_is_the_join_of_the_item_encodings", p.pc,
+                           z3.And(z3.BoolVal(p.ghost.get("joined") == 1), Z(r.length) == z3.Select(p.ghost["PS"], cnt)) if isinstance(r, SSeq) else z3.BoolVal(False),
+                           kind="post", case="any number of items", where=where(tb), tag=tag))
+    if n_ret == 0:
+        run.add(Obligation(prop, qualname(tb), "exit_path_exists", [], z3.BoolVal(False), kind="cover", case="any number of items", where=where(tb)))
+    E.loop_specs = {}
 
 
 # ------------------------------------------------------------------ witness / replay
